@@ -1,5 +1,6 @@
 import SafeNet.Proofs.Distance
 import SafeNet.Props.C08
+import SafeNet.Props.C10
 /-!
 # C11 — all distance computations agree with the XOR metric over hashed addresses
 
@@ -301,6 +302,29 @@ theorem sort_addr_spec (target : Addr) (ps : List APeer) (n : Nat) (r : List APe
       rw [List.length_take, hlen']
       omega
 
+/-! ## The record store's closeness decisions on records (distance index, farthest record) -/
+
+/-- "Selecting … records within a range": after every history and schedule of the record store (restarts included) the
+distance index is exactly `{(XOR distance of k, k) | k held}` and the farthest record is the held key of maximal XOR
+distance, for the metric the code computes (SHA-256 of the key bytes and of the node's peer-id bytes), over any finite
+key universe without a SHA-256 collision (C10's `views_agree_sha`; the tie to the code is the store correspondence run,
+which this check runs as well: every `dist` / `far` / `metrics` / `cleanup` line). -/
+theorem record_selection_is_by_xor_distance (cfg : SafeNet.Store.Cfg) (U : List Nat) (keyBytes : Nat → List Nat)
+    (self : List Nat)
+    (hkeys : ∀ a ∈ U, ∀ b ∈ U, keyBytes a = keyBytes b → a = b)
+    (hsha : ∀ a ∈ U, ∀ b ∈ U,
+      SafeNet.Sha256.hashNat (keyBytes a) = SafeNet.Sha256.hashNat (keyBytes b) → keyBytes a = keyBytes b)
+    (ops : List SafeNet.Store.Op) :
+    let dist := fun k => if k ∈ U then SafeNet.Sha256.hashNat (keyBytes k) ^^^ SafeNet.Sha256.hashNat self else 2 ^ 256 + k
+    let s := SafeNet.Store.run cfg dist ops
+    (∀ d k, (d, k) ∈ s.byDist ↔ (k ∈ SafeNet.Store.keys s.index ∧ d = dist k)) ∧
+    (match s.farthest with
+      | none => s.index = []
+      | some (f, fd) => f ∈ SafeNet.Store.keys s.index ∧ fd = dist f ∧ ∀ k ∈ SafeNet.Store.keys s.index, dist k ≤ fd) := by
+  intro dist s
+  have h := SafeNet.Props.C10.views_agree_sha cfg U keyBytes self hkeys hsha ops
+  exact h.2
+
 /-! ## The replication fetcher's closeness decision (which queued records are fetched first) -/
 
 /-- `ReplicationFetcher::next_keys_to_fetch` is a closeness decision too: for every distance function (in
@@ -341,6 +365,7 @@ end SafeNet.Props.C11
 #print axioms SafeNet.Props.C11.inRange_addr_is_xor_filter
 #print axioms SafeNet.Props.C11.closest_range_addr_is_xor_filter
 #print axioms SafeNet.Props.C11.sort_addr_spec
+#print axioms SafeNet.Props.C11.record_selection_is_by_xor_distance
 #print axioms SafeNet.Props.C11.fetch_order_is_by_distance
 #print axioms SafeNet.Props.C11.sort_sorted
 #print axioms SafeNet.Props.C11.sort_perm
